@@ -185,9 +185,12 @@ fn run_real_inner<V: VirtualFileSystem>(v: &V, root: &str, o: &WOpts, cap: Optio
     if o.max != usize::MAX {
         e = e.max_depth(o.max);
     }
-    match o.filter {
-        1 => e = e.dirs(),
-        2 => e = e.files(),
+    // (for odd min_depth the other kind filter is asked for first: the later call is the one that counts)
+    match (o.filter, o.min % 2 == 1) {
+        (1, false) => e = e.dirs(),
+        (1, true) => e = e.files().dirs(),
+        (2, false) => e = e.files(),
+        (2, true) => e = e.dirs().files(),
         _ => {},
     }
     e = e.follow(o.follow);
